@@ -97,7 +97,162 @@ def build() -> Tables:
           lambda: sorted(mod("src.orchestrator.core")._HARDCODED_EXCLUDE_EXTENSIONS))
     t.add("Orch", "defaultMaxWorkers", "Nat",
           lambda: mod("src.orchestrator.core").DEFAULT_MAX_WORKERS, 8)
+    # ---------------- CLI commands, rule ids, per-command filters, extension map (C15, C06, C10)
+    cli_tables(t)
     return t
+
+
+NON_LINTER_COMMANDS = {"config", "hello", "init-config"}
+
+
+def _ast_rule_ids() -> list[str]:
+    import ast
+    ids = set()
+    for f in sorted((Path(REPO) / "src").rglob("*.py")):
+        try:
+            tree = ast.parse(f.read_text())
+        except SyntaxError:
+            continue
+        for n in ast.walk(tree):
+            if isinstance(n, ast.keyword) and n.arg == "rule_id" and isinstance(n.value, ast.Constant) and isinstance(n.value.value, str):
+                ids.add(n.value.value)
+    return sorted(ids)
+
+
+def _ast_filter_candidates() -> list[tuple[str, str]]:
+    """(kind, literal) of every rule-id filter expression in src/cli/linters/*.py"""
+    import ast
+    out = set()
+
+    def is_rule_id(e):
+        return isinstance(e, ast.Attribute) and e.attr == "rule_id"
+
+    for f in sorted((Path(REPO) / "src" / "cli" / "linters").glob("*.py")):
+        tree = ast.parse(f.read_text())
+        for n in ast.walk(tree):
+            if isinstance(n, ast.Call) and isinstance(n.func, ast.Attribute) and n.func.attr == "startswith" and is_rule_id(n.func.value):
+                if n.args and isinstance(n.args[0], ast.Constant):
+                    out.add(("prefix", n.args[0].value))
+            elif isinstance(n, ast.Compare) and len(n.ops) == 1:
+                l, r = n.left, n.comparators[0]
+                if isinstance(n.ops[0], ast.In) and isinstance(l, ast.Constant) and is_rule_id(r):
+                    out.add(("contains", l.value))
+                elif isinstance(n.ops[0], ast.Eq) and is_rule_id(l) and isinstance(r, ast.Constant):
+                    out.add(("equals", r.value))
+            elif isinstance(n, ast.Call) and isinstance(n.func, ast.Name) and n.func.id in ("filter_violations_by_prefix", "filter_violations_by_startswith"):
+                if len(n.args) > 1 and isinstance(n.args[1], ast.Constant):
+                    out.add(("contains" if n.func.id.endswith("by_prefix") else "prefix", n.args[1].value))
+    return sorted(out)
+
+
+def _passes(kind: str, lit: str, rid: str) -> bool:
+    return {"prefix": rid.startswith(lit), "contains": lit in rid, "equals": rid == lit}[kind]
+
+
+def _probe_commands(commands: list[str], probe_ids: list[str]) -> dict[str, list[str]]:
+    """Behaviour of each command's rule filter: run the real CLI with an orchestrator that reports one
+    violation per probe id and record which ids the command prints."""
+    import tempfile
+    from unittest import mock
+
+    from click.testing import CliRunner
+
+    cli = mod("src.cli_main").cli
+    types = mod("src.core.types")
+    oc = mod("src.orchestrator.core")
+    res = {}
+    with tempfile.TemporaryDirectory(dir="/dev/shm" if os.path.isdir("/dev/shm") else None) as d:
+        f = Path(d) / "probe.py"
+        f.write_text("x = 1\n")
+        (Path(d) / ".thailint.yaml").write_text("{}\n")
+
+        def fake(self, *a, **k):
+            return [types.Violation(rule_id=r, file_path=str(f), line=1, column=0, message=r) for r in probe_ids]
+
+        with mock.patch.object(oc.Orchestrator, "lint_files", fake), mock.patch.object(oc.Orchestrator, "lint_directory", fake), \
+                mock.patch.object(oc.Orchestrator, "lint_file", fake):
+            for c in commands:
+                r = CliRunner().invoke(cli, ["--project-root", d, c, "--format", "json", str(f)])
+                out = r.stdout if hasattr(r, "stdout") else r.output
+                try:
+                    vs = json.loads(out)["violations"]
+                    res[c] = [v["rule_id"] for v in vs]
+                except Exception:  # noqa: BLE001
+                    res[c] = ["<<probe-failed>>"]
+    return res
+
+
+def cli_tables(t: Tables) -> None:
+    state = {}
+
+    def commands():
+        cli = mod("src.cli_main").cli
+        state["commands"] = sorted(c for c in cli.commands if c not in NON_LINTER_COMMANDS)
+        return state["commands"]
+
+    def rule_ids():
+        reg = mod("src.core.registry").RuleRegistry()
+        reg.discover_rules("src.linters")
+        ids = {r.rule_id for r in reg.list_all()} | set(_ast_rule_ids())
+        state["registered"] = sorted(r.rule_id for r in reg.list_all())
+        state["rule_ids"] = sorted(i for i in ids if i and " " not in i)
+        return state["rule_ids"]
+
+    t.add("Cli", "commands", "List String", commands)
+    t.add("Cli", "ruleIds", "List String", rule_ids)
+    t.add("Cli", "registeredRuleIds", "List String", lambda: state["registered"])
+
+    def probe_ids():
+        cands = _ast_filter_candidates()
+        state["cands"] = cands
+        adv = set()
+        for _k, lit in cands:
+            base = lit.rstrip(".")
+            adv |= {base, base + ".zz", "x" + base + ".zz", "zz." + base, base + "x.zz", base + "-extra.zz"}
+        state["probe"] = sorted(set(state["rule_ids"]) | adv)
+        return state["probe"]
+
+    t.add("Cli", "probeIds", "List String", probe_ids)
+
+    def behaviour():
+        state["beh"] = _probe_commands(state["commands"], state["probe"])
+        return [[c, state["beh"][c]] for c in state["commands"]]
+
+    def lean_beh(v):
+        return "[" + ", ".join("(" + lean_str(c) + ", " + lean_list(ids) + ")" for c, ids in v) + "]"
+
+    try:
+        beh = behaviour()
+        t.defs.setdefault("Cli", []).append(("behaviour", "List (String × List String)", lean_beh(beh)))
+        t.status["Cli.behaviour"] = "probe"
+    except Exception as exc:  # noqa: BLE001
+        t.defs.setdefault("Cli", []).append(("behaviour", "List (String × List String)", "[]"))
+        t.status["Cli.behaviour"] = f"broken({type(exc).__name__}: {exc})"
+
+    # which AST-extracted predicate does each command apply?  (the one whose truth table on the probe ids is the observed one)
+    rows, unmatched = [], []
+    for c in state.get("commands", []):
+        got = state.get("beh", {}).get(c)
+        match = [(k, l) for k, l in state.get("cands", []) if [r for r in state["probe"] if _passes(k, l, r)] == got]
+        if match:
+            rows.append((c, match[0][0], match[0][1]))
+        else:
+            unmatched.append(c)
+    t.defs["Cli"].append(("commandFilter", "List (String × String × String)",
+                          "[" + ", ".join(f"({lean_str(c)}, {lean_str(k)}, {lean_str(l)})" for c, k, l in rows) + "]"))
+    t.status["Cli.commandFilter"] = "ast+probe" if not unmatched else f"broken(no source predicate reproduces the behaviour of: {unmatched})"
+
+    def ext_map():
+        m = mod("src.orchestrator.language_detector").EXTENSION_MAP
+        return sorted(m.items())
+
+    try:
+        em = ext_map()
+        t.defs["Cli"].append(("extensionMap", "List (String × String)", "[" + ", ".join(f"({lean_str(a)}, {lean_str(b)})" for a, b in em) + "]"))
+        t.status["Cli.extensionMap"] = "import"
+    except Exception as exc:  # noqa: BLE001
+        t.defs["Cli"].append(("extensionMap", "List (String × String)", "[]"))
+        t.status["Cli.extensionMap"] = f"broken({exc})"
 
 
 def write_if_changed(path: Path, text: str) -> bool:
